@@ -6,12 +6,13 @@ CONSTANTS
   MaxChoices = 2
   NPool = 5
   MaxLines = 2
-  NAnswers = 13
+  NAnswers = 12
   Attempts = {0, 1, 2}
   NDefaults = 1
   Inter = {TRUE}
   Multis = {FALSE, TRUE}
   Muts = {0}
+  RouteIds = {1}
   Rounds = 1
 INVARIANT TypeOK
 INVARIANT H_sane
